@@ -363,6 +363,18 @@ def _r4(ctx):
                 eq(ctx, "R4", f"mass handed to activity() for {iso.name}: mass * mass fraction [* abundance/100], summed per product",
                    act[iso][0], wv * G(iso), site)
                 eq(ctx, "R4", f"accumulation is per rest time for {iso.name}", act[iso][1], wv * G(iso) * decay(iso, P("T")), site)
+    # reporting the sample (show_table and whatever totals it computes) reads the activities and leaves them as they were
+    snap_ = {k_: list(v_) for k_, v_ in I.getattr(smp, "activity").items()} if isinstance(I.getattr(smp, "activity"), dict) else None
+    if snap_ is not None and I.hasattr(smp, "show_table"):
+        for rep_ in (1, 2):
+            rr_ = raises(lambda: I.call(I.getattr(smp, "show_table"), [], {}))
+            if rr_ is not None:
+                break
+        now_ = I.getattr(smp, "activity")
+        if rr_ is None:
+            same_ = isinstance(now_, dict) and set(now_) == set(snap_) and all(
+                len(now_[k_]) == len(snap_[k_]) and all(algebra.equal(x_, y_, seed=ctx.seed, points=3)[0] for x_, y_ in zip(now_[k_], snap_[k_])) for k_ in snap_)
+            ctx.check(same_, "R4", "show_table() leaves Sample.activity as it was", "the activities of the sample changed while the table was printed", site)
     # the same Sample asked again: another abundance function, another mass - nothing of the first answer is reused
     tagof = {Fe54.id: "Fe54", Fe56.id: "Fe56", O16.id: "O16"}
     ab2 = Builtin("abundance2", lambda iso_: sp.Symbol(f"ab2_{tagof.get(iso_.id, iso_.name)}", positive=True))
